@@ -38,9 +38,12 @@ func genRanges(rt *rapid.T, last int) [][2]int {
 	n := rapid.IntRange(1, 4).Draw(rt, "nranges")
 	var out [][2]int
 	for i := 0; i < n; i++ {
-		low := rapid.IntRange(-1, last+2).Draw(rt, "low")
+		low := rapid.IntRange(1, last).Draw(rt, "low")
+		if rapid.IntRange(0, 11).Draw(rt, "oddlow") == 0 {
+			low = rapid.SampledFrom([]int{-1, 0, last + 1, last + 2}).Draw(rt, "lowodd")
+		}
 		var hi int
-		switch rapid.IntRange(0, 7).Draw(rt, "hishape") {
+		switch rapid.IntRange(0, 11).Draw(rt, "hishape") {
 		case 0:
 			hi = 0
 		case 1:
@@ -92,7 +95,11 @@ func genC04(rt *rapid.T) c04Prog {
 		}
 		switch a.Kind {
 		case "del":
-			a.Ranges = genRanges(rt, p.NMsgs)
+			per := p.NMsgs / (len(p.Sc.Groups) + len(p.Sc.P2P))
+			if per < 2 {
+				per = 2
+			}
+			a.Ranges = genRanges(rt, per)
 			a.Hard = rapid.Bool().Draw(rt, "hard")
 		case "getdata", "getdel":
 			if rapid.Bool().Draw(rt, "opts") {
